@@ -1,4 +1,5 @@
 """C06 - `$deref` matches exactly the memory operand objdump prints as k(a,b,c)."""
+import copy
 from hypothesis import assume, strategies as st
 
 from vlib import jasm_io, x86enc
@@ -44,7 +45,9 @@ def cases(draw):
     disp = draw(st.sampled_from([0, 1, 8, 0x10, 0x18, 0x1a, 0x7f, 0x80, 0x100, 0x12345, -8, -0x10, -0x80, -0x81, 0x7fffffff, -0x80000000]))
     has_b = draw(st.booleans()) and not rip
     has_c = has_b if draw(st.integers(0, 5)) else (not has_b and not rip and draw(st.booleans()))
-    has_k = draw(st.booleans()) or rip
+    # (a rip-relative operand is always printed with its displacement; a rule that names the base alone - {main_reg: rip} - describes an
+    # operand with fewer components and matches none of them: one rip case in three)
+    has_k = draw(st.booleans()) or (rip and draw(st.integers(0, 2)) > 0)
     if has_b and (base & 7) == 5 and not has_k:
         has_k = True  # objdump always prints a displacement with %rbp/%r13 as base
     if not has_b and not rip and (base & 7) == 5:
@@ -297,7 +300,25 @@ def evaluate(case):
     mn_f, op_f = [(None, None), (None, True), (True, True)][sel]
     if sel:
         ev.tags.append("flags=" + ("operands-full" if sel == 1 else "both-full"))
-    exp, spans, rep = compare(ev, pattern, None, mn_f, op_f, modes=("list",), text=text, NV=NV)
+    h_ = zlib.crc32(repr((sorted((k, str(v)) for k, v in fields.items()), pos, mn)).encode())
+    if h_ % 4 == 3 and case.get("form") != "addr16":
+        # the same rule delivered through a macro with one argument: one field of the $deref is the formal parameter (a short name, as
+        # a user writes it: i, a, b, x, r - letters that also occur inside the literal fields beside it), the others stay literal
+        from vlib.refmatch import Ref
+
+        formal = ["i", "a", "b", "x", "r"][h_ // 4 % 5]
+        f_ = sorted(fields)[h_ // 20 % len(fields)]
+        body_fields = dict(fields)
+        body_fields[f_] = formal
+        item = copy.deepcopy(pattern[0])
+        key = list(item)[0]
+        item[key] = [({"$deref": body_fields} if isinstance(o, dict) else o) for o in item[key]]
+        macro = {"name": "@yelem_", "args": [formal], "pattern": [item]}
+        spans = Ref(NV, bool(mn_f), bool(op_f)).spans(pattern)
+        ev.tags.append("rule=through-args-macro")
+        exp, spans, rep = compare(ev, [{"@yelem_": {formal: fields[f_]}}], None, mn_f, op_f, modes=("list",), text=text, NV=NV, doc_macros=[macro], spans=spans)
+    else:
+        exp, spans, rep = compare(ev, pattern, None, mn_f, op_f, modes=("list",), text=text, NV=NV)
     if no_same_components:
         # rejecting such a rule is accepted; silently matching something is not
         ev.deviations[before:] = [d for d in ev.deviations[before:] if d["kind"] != "exception"]
